@@ -811,6 +811,21 @@ class RGraph:
             for iid, commit in rbuild.rcommits.items()
         } if prev_branch is not None else {}
 
+        if prev_branch is not None:
+            # ... and RCommit's reachable from the head of the previous branch:
+            # they may be reported in builds of even earlier branches only (f.e.
+            # if the head of the previous branch belongs to the history of
+            # some earlier branch)
+            rc_stack = list(prev_branch.rheads)
+            visited_iids = set()
+            while rc_stack:
+                rc = rc_stack.pop()
+                if rc.iid in visited_iids:
+                    continue
+                visited_iids.add(rc.iid)
+                all_commits_prev_branch.setdefault(rc.iid, rc)
+                rc_stack.extend(rc.parents)
+
         all_commits_in_this_branch = {
             iid
             for rbuild in cur_branch_rbuilds.values()
